@@ -7,6 +7,7 @@ import (
 	"io"
 	"strings"
 	"testing"
+	"unicode/utf8"
 
 	"golang.org/x/text/unicode/norm"
 	"seehuhn.de/go/pdf"
@@ -121,7 +122,11 @@ var c09Passwords = []string{"", "user", "owner", "Geheim", "pässwörd", "€uro
 	strings.Repeat("a", 31) + "(", // equals the 31-byte password after padding
 	strings.Repeat("b", 126), strings.Repeat("b", 127), strings.Repeat("b", 128), strings.Repeat("b", 127) + "x", strings.Repeat("b", 127) + "y",
 	"pass\u00adword", "password", "a\u00a0b", "a b", "\uff21BC", "ABC", "\ufb01sh", "fish", "e\u0301te\u0301", "\u00e9t\u00e9",
-	"αβγ", "пароль", "•bullet", "x\x01y", "tab\tx"}
+	"αβγ", "пароль", "•bullet", "x\x01y", "tab\tx",
+	// a two-byte character straddling the 127-byte limit, and the same cut at the character boundary
+	strings.Repeat("c", 126) + "\u00e9tail", strings.Repeat("c", 126),
+	// a character at the 32-byte limit of the older revisions
+	strings.Repeat("d", 31) + "\u00e9x", strings.Repeat("d", 31) + "\u00e9y"}
 
 func c09NearMisses(r *kit.Rand, pw string) []string {
 	var out []string
@@ -137,6 +142,19 @@ func c09NearMisses(r *kit.Rand, pw string) []string {
 			m = append([]rune{}, rs...)
 			m[0], m[len(m)-1] = m[len(m)-1], m[0]
 			out = append(out, string(m))
+		}
+	}
+	// the password cut at a character boundary just below the standard's byte limits
+	for _, limit := range []int{127, 32} {
+		if len(pw) > limit {
+			cut := limit
+			for cut > 0 && !utf8.RuneStart(pw[cut]) {
+				cut--
+			}
+			out = append(out, pw[:cut])
+			if cut > 1 {
+				out = append(out, pw[:cut-1])
+			}
 		}
 	}
 	out = append(out, kit.Pick(r, c09Passwords), kit.Pick(r, c09Passwords), "", "wrong")
